@@ -11,7 +11,11 @@ scanning the same tree twice; by a ladder of hash seeds (16+4 / 64+16) over tiny
 line carries every comment-opener neighbourhood of `nocl` (marker_files); and by calling the real
 `check_command` with several directory arguments in EVERY order on trees with nested .gitignore
 files (check_orders: fresh interpreters, all calls of a tree in one process, first call repeated
-at the end), each call judged against the model's analysis of every file alone."""
+at the end), each call judged against the model's analysis of every file alone. Round 5: the tree of the two-scans stream
+names files by every extension / whole name Pygments maps to their language and holds byte-identical headers under every
+contested name (x.h ...) above, beside and below C and C++ sources (a failure is shrunk to a few files and replayable);
+cache_histories: `codelimit scan`, then files rewritten with a kept / back-dated mtime, touched, renamed with the same
+bytes, then scans with the cache in place and without: every entry must be the analysis of the file as it is now."""
 import json
 import os
 import shutil
@@ -55,6 +59,179 @@ def run_worker(cases, hashseed):
     return json.loads(p.stdout)["results"], None
 
 
+def tree_files(ctx, fs):
+    """the tree of the `tree` stream: {rel path: (language, bytes)} of the files a scan must report, {rel path: bytes}
+    of files it must not, and the root .gitignore.  File names: the canonical extension of the language or - for half
+    of the generated files - ANY extension / whole file name Pygments maps to that language (harness/gen/names.py:
+    `*.h` and `*.idc` for C, `*.hh` `*.hpp` `*.cc` `*.cxx` `*.H` ... for C++, `*.mjs` `*.cjs`, `*.pyi` `*.pyw` `BUILD`
+    `SConscript` `BUILD.bazel` ...), so that names claimed by several languages (`*.h`: C for Pygments, used by C++
+    projects) sit next to files of the competing language, above and below them in the walk."""
+    rnd = ctx.rng("tree-names")
+    pools = sel.name_pools()["lang"]
+    placed = {}
+    for i, (lang, code) in enumerate(fs[:25]):
+        alts = [fn for fn, l in pools if l == lang]
+        fn = rnd.choice(alts) if alts and rnd.random() < 0.5 else "unit." + sr.EXT[lang]
+        rel = os.path.join("d%d" % (i % 3), "f%02d%s" % (i, fn[4:])) if fn.startswith("unit.") else os.path.join("d%d" % (i % 3), "p%02d" % i, fn)
+        placed[rel] = (lang, code.encode("utf-8"))
+    twin = "int sum(int n) {\n  int s = 0;\n  list_for_each(p) {\n    s += 1;\n  }\n  return s;\n}\n"
+    placed[os.path.join("twins", "sum.c")] = ("C", twin.encode())
+    placed[os.path.join("twins", "sum.cpp")] = ("C++", twin.encode())
+    # every name of the pool that a SECOND lexer claims as well (`x.h`: C / Objective-C, `x.hh`, `x.cp`, `x.sc`) and the
+    # header extensions, byte-identical, at three levels: above, beside and below files of the other C-family language
+    hdr = "static inline " + twin           # the block-like macro is read differently by the C and the C++ rules
+    contested = sorted({fn[4:] for fn, l, others in __import__("gen.names", fromlist=["x"]).language_file_names("unit")
+                        if fn.startswith("unit.") and (others or fn[4:] in (".h", ".H", ".hh", ".hpp"))})
+    for ext in contested:
+        lang = sel.expected_language("shared" + ext)
+        if lang is None:
+            continue
+        for d in ("", "twins", os.path.join("d0", "inc"), os.path.join("zz", "inc")):
+            placed[os.path.join(d, "shared" + ext)] = (lang, hdr.encode())
+    placed["main.cpp"] = ("C++", twin.encode())
+    placed[os.path.join("zz", "app.cc")] = ("C++", twin.encode())
+    placed[os.path.join("zz", "crc.c")] = ("C", twin.encode())
+    js = "function f(a) {\n  return a;\n}\n"
+    placed[os.path.join("twins", "same.js")] = ("JavaScript", js.encode())
+    placed[os.path.join("twins", "same.ts")] = ("TypeScript", js.encode())
+    placed[os.path.join("gen", "keep.py")] = ("Python", b"def keep():\n    return 1\n")
+    placed[os.path.join("gen", "drop.py")] = ("Python", b"def drop():\n    return 2\n")
+    # files whose language follows from the FULL name (no extension) next to extension-less files
+    # that are no source files, and a file that is not valid UTF-8 next to a UTF-8 file with
+    # non-ASCII identifiers: a per-extension lexer cache or a sticky decoding fallback (seeded
+    # changes C06-3, C06-4) makes the result depend on which of them is visited first
+    build = b"def rule(name):\n    x = name\n    return x\n"
+    placed[os.path.join("tools", "BUILD")] = ("Python", build)
+    placed[os.path.join("tools", "SConstruct")] = ("Python", build)
+    placed[os.path.join("enc", "unicode.py")] = ("Python", "def gr\u00f6\u00dfe(werte):\n    s = '\u00e9\u00e8'\n    return werte\n".encode("utf-8"))
+    placed[os.path.join("enc", "legacy.py")] = ("Python", b"# caf\xe9 \xff\ndef alt(a):\n    return a\n")
+    placed[os.path.join("enc2", "legacy2.c")] = ("C", b"int alt2(int a) {\n  return a; /* \xe9\xff */\n}\n")
+    placed[os.path.join("enc2", "unicode2.c")] = ("C", "int \u00fcber(int a) {\n  return a;\n}\n".encode("utf-8"))
+    others = {os.path.join("tools", "LICENSE"): b"Permission is hereby granted (free)\n", os.path.join("tools", "Makefile"): b"all:\n\techo def f\n",
+              os.path.join("tools", "README"): b"def not_code(): pass\n", "LICENSE": b"text\n"}
+    return placed, others, "gen/*\n!gen/keep.py\n*.tmp\n"
+
+
+def decode_bytes(data):
+    try:
+        return data.decode("utf-8")
+    except UnicodeDecodeError:
+        return data.decode("latin-1")
+
+
+def write_tree(root, placed, others, gitignore):
+    for rel, data in list((k, v[1]) for k, v in placed.items()) + list(others.items()):
+        os.makedirs(os.path.join(root, os.path.dirname(rel)) if os.path.dirname(rel) else root, exist_ok=True)
+        with open(os.path.join(root, rel), "wb") as f:
+            f.write(data)
+    if gitignore:
+        with open(os.path.join(root, ".gitignore"), "w") as f:
+            f.write(gitignore)
+
+
+def cli_scan(root, hashseed, walk_seed, keep_cache=False):
+    """`codelimit scan <root>` in a fresh interpreter (harness/c06_scan.py: os.walk order = a function of walk_seed; 0 = the
+    file system's) -> (report document without uuid / timestamp, None) | (None, error)"""
+    if not keep_cache:
+        shutil.rmtree(os.path.join(root, ".codelimit_cache"), ignore_errors=True)
+    env = dict(os.environ, PYTHONHASHSEED=str(hashseed), PYTHONPATH=common.REPO, COLUMNS="200", C06_WALK_SEED=str(walk_seed))
+    p = subprocess.run([sys.executable, os.path.join(common.VERIF, "harness", "c06_scan.py"), "scan", root], capture_output=True, text=True, env=env, timeout=300, cwd=root)
+    if p.returncode != 0:
+        return None, "scan exited with %s: %s" % (p.returncode, (p.stdout + p.stderr)[-300:])
+    try:
+        d = json.load(open(os.path.join(root, ".codelimit_cache", "codelimit.json")))
+    except Exception as e:  # noqa: BLE001
+        return None, "no readable report after the scan: %r" % (e,)
+    d.pop("uuid", None); d.pop("timestamp", None)
+    return d, None
+
+
+def canon_report(d):
+    cb = d["codebase"]
+    return {"version": d.get("version"), "root": d.get("root"), "totals": cb["totals"],
+            "files": {k: v for k, v in sorted(cb["files"].items())},
+            "tree": {k: {"entries": sorted(v["entries"]), "profile": v["profile"]} for k, v in sorted(cb["tree"].items())}}
+
+
+def entry_vs_model(files, report_files):
+    """every entry of a report is the analysis of that file alone: language by its name, measurements and loc = the model's
+    result for (language, content) -> (rel, message) of the first entry that is not, or None"""
+    rels = sorted(report_files)
+    model = sr.model_scan_many([sr.scan_request(files[r][0], decode_bytes(files[r][1])) for r in rels], shards=1 if len(rels) < 20 else 16)
+    for r, m in zip(rels, model):
+        dm = sr.decode_scan(m)
+        e = report_files[r]
+        got = [(x["unit_name"], x["start"]["line"], x["start"]["column"], x["end"]["line"], x["end"]["column"], x["value"]) for x in e["measurements"]]
+        if dm is None or got != dm[0] or e["language"] != files[r][0] or e["loc"] != dm[1]:
+            return r, "entry of %s in the scan report (%s, %s) is not the analysis of that file alone (%s, %s)" % (r, e["language"], got[:3], files[r][0], dm and dm[0][:3])
+    return None
+
+
+def run_tree(placed, others, gitignore, runs):
+    """scans of one tree in fresh processes, one per (hash seed, walk seed) of `runs`, no cache: -> None | {"what", "file", "runs"}"""
+    root = tempfile.mkdtemp(prefix="c06_")
+    try:
+        write_tree(root, placed, others, gitignore)
+        expected_files = sorted(r for r in placed if not (gitignore and r == os.path.join("gen", "drop.py")))
+        docs = []
+        for (seed, walk) in runs:
+            d, err = cli_scan(root, seed, walk)
+            if err:
+                return {"what": err, "file": None, "runs": [[seed, walk]]}
+            docs.append(canon_report(d))
+        first = docs[0]
+        for (seed, walk), d in zip(runs[1:], docs[1:]):
+            if d != first:
+                a_, b_ = set(first["files"]), set(d["files"])
+                diff = sorted(a_ ^ b_) or [k for k in sorted(a_) if first["files"][k] != d["files"][k]]
+                return {"what": "scans of the same tree under PYTHONHASHSEED=%s (walk order: %s) and PYTHONHASHSEED=%s (walk order seed %s) differ beyond uuid/timestamp/file order: %s" % (
+                            runs[0][0], "file system" if not runs[0][1] else "seed %s" % runs[0][1], seed, walk,
+                            [(k, first["files"].get(k, {}).get("language"), d["files"].get(k, {}).get("language")) for k in diff[:4]] or "totals / folders"),
+                        "file": diff[0] if diff else None, "runs": [list(runs[0]), [seed, walk]]}
+        if sorted(first["files"]) != expected_files:
+            diff = sorted(set(first["files"]) ^ set(expected_files))
+            return {"what": "scanned files: unexpected %s, missing %s" % (sorted(set(first["files"]) - set(expected_files))[:4], sorted(set(expected_files) - set(first["files"]))[:4]),
+                    "file": diff[0] if diff else None, "runs": [list(runs[-1])]}      # all runs gave the same report: name a run with a seeded walk order
+        bad = entry_vs_model(placed, first["files"])
+        if bad:
+            return {"what": bad[1], "file": bad[0], "runs": [list(runs[-1])]}
+        return None
+    finally:
+        shutil.rmtree(root, ignore_errors=True)
+
+
+def shrink_tree(placed, others, gitignore, failure):
+    """a smaller tree with the same kind of failure: the file the failure names, its directory and the directories above
+    it first, then file by file (only ever run after a failure)"""
+    rel = failure.get("file")
+    runs = [tuple(r) for r in failure["runs"]]
+    if len(runs) == 1:
+        runs = runs * 1
+    if not rel or rel not in placed:
+        return placed, others, gitignore, failure
+    d = os.path.dirname(rel)
+    above = lambda r: os.path.dirname(r) == d or d.startswith(os.path.dirname(r) + os.sep) or os.path.dirname(r) == ""   # noqa: E731
+    best = (placed, others, gitignore, failure)
+    for cand in ({r: v for r, v in placed.items() if os.path.dirname(r) == d}, {r: v for r, v in placed.items() if above(r)}):
+        f = run_tree(cand, {}, None, runs)
+        if f:
+            best = (cand, {}, None, f)
+            break
+    cur = dict(best[0])
+    if len(cur) <= 40:
+        for r in sorted(cur, key=lambda r: -len(cur[r][1])):
+            if r == rel or len(cur) <= 1:
+                continue
+            trial = {k: v for k, v in cur.items() if k != r}
+            f = run_tree(trial, {} if best[1] == {} else others, best[2], runs)
+            if f and f.get("file") in trial:
+                cur = trial
+                best = (cur, best[1], best[2], f)
+            if len(cur) <= 3:
+                break
+    return best
+
+
 def scan_tree_twice(ctx, fs):
     """scans of the same tree in fresh processes under several hash seeds (no cache): the reports
     may differ only in uuid, timestamp and the order of files, and every file's entry must be the
@@ -62,84 +239,138 @@ def scan_tree_twice(ctx, fs):
     an order-sensitive exclusion list (a negated gitignore pattern) and byte-identical files of
     different languages, so that neither set-iteration order nor sharing between files goes unnoticed;
     every run but the first also walks the directories in a different (seed-determined) order
-    (harness/c06_scan.py wraps os.walk in the scanning interpreter)."""
-    root = tempfile.mkdtemp(prefix="c06_")
-    try:
-        placed = {}
-        for i, (lang, code) in enumerate(fs[:25]):
-            rel = os.path.join("d%d" % (i % 3), "f%02d.%s" % (i, sr.EXT[lang]))
-            placed[rel] = (lang, code)
-        twin = "int sum(int n) {\n  int s = 0;\n  list_for_each(p) {\n    s += 1;\n  }\n  return s;\n}\n"
-        placed[os.path.join("twins", "sum.c")] = ("C", twin)
-        placed[os.path.join("twins", "sum.cpp")] = ("C++", twin)
-        js = "function f(a) {\n  return a;\n}\n"
-        placed[os.path.join("twins", "same.js")] = ("JavaScript", js)
-        placed[os.path.join("twins", "same.ts")] = ("TypeScript", js)
-        placed[os.path.join("gen", "keep.py")] = ("Python", "def keep():\n    return 1\n")
-        placed[os.path.join("gen", "drop.py")] = ("Python", "def drop():\n    return 2\n")
-        # files whose language follows from the FULL name (no extension) next to extension-less files
-        # that are no source files, and a file that is not valid UTF-8 next to a UTF-8 file with
-        # non-ASCII identifiers: a per-extension lexer cache or a sticky decoding fallback (seeded
-        # changes C06-3, C06-4) makes the result depend on which of them is visited first
-        build = "def rule(name):\n    x = name\n    return x\n"
-        placed[os.path.join("tools", "BUILD")] = ("Python", build)
-        placed[os.path.join("tools", "SConstruct")] = ("Python", build)
-        placed[os.path.join("enc", "unicode.py")] = ("Python", "def gr\u00f6\u00dfe(werte):\n    s = '\u00e9\u00e8'\n    return werte\n")
-        raw = {os.path.join("enc", "legacy.py"): b"# caf\xe9 \xff\ndef alt(a):\n    return a\n",
-               os.path.join("enc2", "legacy2.c"): b"int alt2(int a) {\n  return a; /* \xe9\xff */\n}\n"}
-        placed[os.path.join("enc", "legacy.py")] = ("Python", raw[os.path.join("enc", "legacy.py")].decode("latin-1"))
-        placed[os.path.join("enc2", "legacy2.c")] = ("C", raw[os.path.join("enc2", "legacy2.c")].decode("latin-1"))
-        placed[os.path.join("enc2", "unicode2.c")] = ("C", "int \u00fcber(int a) {\n  return a;\n}\n")
-        others = {os.path.join("tools", "LICENSE"): "Permission is hereby granted (free)\n", os.path.join("tools", "Makefile"): "all:\n\techo def f\n",
-                  os.path.join("tools", "README"): "def not_code(): pass\n", "LICENSE": "text\n"}
-        for rel, (lang, code) in placed.items():
-            os.makedirs(os.path.join(root, os.path.dirname(rel)), exist_ok=True)
-            with open(os.path.join(root, rel), "wb") as f:
-                f.write(raw[rel] if rel in raw else code.encode("utf-8"))
-        for rel, text in others.items():
-            os.makedirs(os.path.join(root, os.path.dirname(rel)) if os.path.dirname(rel) else root, exist_ok=True)
-            with open(os.path.join(root, rel), "w") as f:
-                f.write(text)
-        with open(os.path.join(root, ".gitignore"), "w") as f:
-            f.write("gen/*\n!gen/keep.py\n*.tmp\n")
-        expected_files = sorted(r for r in placed if r != os.path.join("gen", "drop.py"))
-        docs = []
-        seeds = ctx.pick([1, 5, 12, 77], list(range(1, 25)))
-        for k, seed in enumerate(seeds):
-            shutil.rmtree(os.path.join(root, ".codelimit_cache"), ignore_errors=True)
-            # the first run walks in the file system's order, the others in seed-determined orders
-            env = dict(os.environ, PYTHONHASHSEED=str(seed), PYTHONPATH=common.REPO, COLUMNS="200", C06_WALK_SEED=str(0 if k == 0 else seed))
-            p = subprocess.run([sys.executable, os.path.join(common.VERIF, "harness", "c06_scan.py"), "scan", root], capture_output=True, text=True, env=env, timeout=300, cwd=root)
-            if p.returncode != 0:
-                return "scan exited with %s: %s" % (p.returncode, (p.stdout + p.stderr)[-300:])
-            d = json.load(open(os.path.join(root, ".codelimit_cache", "codelimit.json")))
-            d.pop("uuid", None); d.pop("timestamp", None)
-            docs.append(d)
-
-        def canon(d):
-            cb = d["codebase"]
-            return {"version": d.get("version"), "root": d.get("root"), "totals": cb["totals"],
-                    "files": {k: v for k, v in sorted(cb["files"].items())},
-                    "tree": {k: {"entries": sorted(v["entries"]), "profile": v["profile"]} for k, v in sorted(cb["tree"].items())}}
-        first = canon(docs[0])
-        for seed, d in zip(seeds[1:], docs[1:]):
-            if canon(d) != first:
-                a_, b_ = set(first["files"]), set(canon(d)["files"])
-                return "scans of the same tree under PYTHONHASHSEED=%s (file-system walk order) and %s (walk order seed %s) differ beyond uuid/timestamp/file order (files only in one: %s)" % (seeds[0], seed, seed, sorted(a_ ^ b_)[:4])
-        if sorted(first["files"]) != expected_files:
-            return "scanned files %s, expected %s" % (sorted(first["files"])[:6], expected_files[:6])
-        # every entry is the analysis of that file alone
-        rels = sorted(first["files"])
-        model = sr.model_scan_many([sr.scan_request(*placed[r]) for r in rels])
-        for r, m in zip(rels, model):
-            dm = sr.decode_scan(m)
-            e = first["files"][r]
-            got = [(x["unit_name"], x["start"]["line"], x["start"]["column"], x["end"]["line"], x["end"]["column"], x["value"]) for x in e["measurements"]]
-            if dm is None or got != dm[0] or e["language"] != placed[r][0] or e["loc"] != dm[1]:
-                return "entry of %s in the scan report (%s, %s) is not the analysis of that file alone (%s, %s)" % (r, e["language"], got[:3], placed[r][0], dm and dm[0][:3])
+    (harness/c06_scan.py wraps os.walk in the scanning interpreter). -> None | failure payload"""
+    placed, others, gitignore = tree_files(ctx, fs)
+    seeds = ctx.pick([1, 5, 12, 77], list(range(1, 25)))
+    runs = [(seed, 0 if k == 0 else seed) for k, seed in enumerate(seeds)]      # the first run walks in the file system's order
+    f = run_tree(placed, others, gitignore, runs)
+    if not f:
         return None
+    small, o2, g2, f2 = shrink_tree(placed, others, gitignore, f)
+    return {"input": {"stream": "tree", "files": {r: [l, b.decode("latin-1")] for r, (l, b) in small.items()},
+                      "other_files": {r: b.decode("latin-1") for r, b in o2.items()}, "gitignore": g2, "runs": [list(r) for r in f2["runs"]]},
+            "observed": f2["what"], "required": "reports equal up to uuid, timestamp and file order; every entry = the analysis of that file alone, language by its name"}
+
+
+# ------------------------------------------------------------------ histories of scans WITH the cache (`codelimit scan` twice)
+
+CACHE_FAMILY = {".c": ".cpp", ".cpp": ".c", ".js": ".ts", ".ts": ".js", ".h": ".hpp", ".hpp": ".h", ".cc": ".c", ".mjs": ".ts"}
+
+
+def gen_cache_history(rnd, placed):
+    """a small tree, scanned by the CLI (the report lands in .codelimit_cache), then changed the way files change between
+    two runs - content replaced while the modification time stays / is OLDER than the cached report (restored from a
+    backup or another checkout, `cp -p`, `rsync -t`, archives, `touch -d`), content unchanged but touched, renamed with
+    the same bytes to the sibling language's extension - and scanned again with the cache in place."""
+    small = sorted(r for r, (l, b) in placed.items() if len(b) < 2500 and r != os.path.join("gen", "drop.py"))
+    pick = rnd.sample(small, min(len(small), 10))
+    files = {r: [placed[r][0], placed[r][1].decode("latin-1")] for r in pick}
+    steps = []
+    whens = [7200, "keep", 86400 * 400, None, 7200]
+    rnd.shuffle(whens)
+    used = set()
+    for when in whens[:rnd.choice([3, 4])]:
+        cands = [(a, b) for a in pick for b in pick if a != b and a not in used and files[a][0] == files[b][0] and files[a][1] != files[b][1]]
+        if not cands:
+            break
+        a, b = rnd.choice(cands)
+        used.add(a)
+        steps.append(["write", a, files[b][1]] + ([when] if when is not None else []))
+    rest = [r for r in pick if r not in used]
+    if rest:
+        r = rnd.choice(rest)
+        steps.append(["touch", r, rnd.choice([7200, 86400 * 400])]); used.add(r)
+    movable = [r for r in pick if r not in used and os.path.splitext(r)[1] in CACHE_FAMILY]
+    if movable:
+        r = rnd.choice(movable)
+        steps.append(["move", r, os.path.splitext(r)[0] + "_moved" + CACHE_FAMILY[os.path.splitext(r)[1]]])
+    return {"stream": "cache-history", "files": files, "steps": steps}
+
+
+def cache_history_after(case):
+    cur = {r: (v[0], v[1].encode("latin-1")) for r, v in case["files"].items()}
+    for st in case["steps"]:
+        if st[0] == "write":
+            cur[st[1]] = (cur[st[1]][0], st[2].encode("latin-1"))
+        elif st[0] == "move":
+            cur[st[2]] = (sel.expected_language(os.path.basename(st[2])), cur.pop(st[1])[1])
+    return cur
+
+
+def run_cache_history(case, hashseed=1):
+    """-> list of violated clauses"""
+    import time
+    root = tempfile.mkdtemp(prefix="c06h_")
+    bad = []
+    try:
+        before = {r: (v[0], v[1].encode("latin-1")) for r, v in case["files"].items()}
+        write_tree(root, before, {}, None)
+        d1, err = cli_scan(root, hashseed, 0)
+        if err:
+            return ["first scan: " + err]
+        for st in case["steps"]:
+            p = os.path.join(root, st[1])
+            if st[0] == "write":
+                old = os.stat(p).st_mtime
+                with open(p, "wb") as f:
+                    f.write(st[2].encode("latin-1"))
+                when = st[3] if len(st) > 3 else None
+                if when == "keep":
+                    os.utime(p, (old, old))
+                elif when is not None:
+                    os.utime(p, (time.time() - when, time.time() - when))
+            elif st[0] == "touch":
+                os.utime(p, (time.time() - st[2], time.time() - st[2]))
+            elif st[0] == "move":
+                os.rename(p, os.path.join(root, st[2]))
+        after = cache_history_after(case)
+        d2, err = cli_scan(root, hashseed, 0, keep_cache=True)
+        if err:
+            return ["second scan (cache of the first in place): " + err]
+        c2 = canon_report(d2)
+        if sorted(c2["files"]) != sorted(after):
+            bad.append("second scan (cache of the first in place): files %s, required %s" % (sorted(c2["files"])[:8], sorted(after)[:8]))
+        else:
+            import hashlib
+            for r in sorted(after):
+                if c2["files"][r].get("checksum") != hashlib.md5(after[r][1]).hexdigest():
+                    bad.append("second scan (cache of the first in place): checksum of %s is not that of its bytes" % r)
+            e = entry_vs_model(after, c2["files"])
+            if e:
+                bad.append("second scan (cache of the first in place): " + e[1])
+        d3, err = cli_scan(root, hashseed + 1, 0, keep_cache=True)
+        if err:
+            bad.append("third scan: " + err)
+        elif canon_report(d3) != c2:
+            bad.append("a third scan (cache of the second in place, nothing changed) differs from the second beyond uuid/timestamp/file order")
+        d4, err = cli_scan(root, hashseed, 0)
+        if err:
+            bad.append("scan without cache: " + err)
+        elif canon_report(d4) != c2:
+            c4 = canon_report(d4)
+            diff = sorted(set(c4["files"]) ^ set(c2["files"])) or [k for k in sorted(c4["files"]) if c4["files"][k] != c2["files"][k]]
+            bad.append("the scan with the cache in place differs from a scan of the same tree without any cache at %s" % (diff[:4] or "totals / folders"))
     finally:
         shutil.rmtree(root, ignore_errors=True)
+    return bad
+
+
+def cache_histories(ctx, fs):
+    from concurrent.futures import ThreadPoolExecutor
+    placed, _o, _g = tree_files(ctx, fs)
+    rnd = ctx.rng("cache-history")
+    cases = [gen_cache_history(rnd, placed) for _ in range(ctx.pick(2, 24))]
+    with ThreadPoolExecutor(max_workers=8) as ex:
+        res = list(ex.map(run_cache_history, cases))
+    fails = [{"input": c, "observed": bad[:4], "required": "the result of a scan depends on the content of the tree only, not on earlier scans (cache) or modification times"}
+             for c, bad in zip(cases, res) if bad]
+    fails.sort(key=lambda f: len(json.dumps(f["input"])))
+    stats = {"histories": len(cases), "scans": 4 * len(cases), "steps": {}}
+    for c in cases:
+        for st in c["steps"]:
+            k = st[0] + ("+old-mtime" if st[0] == "write" and len(st) > 3 else "")
+            stats["steps"][k] = stats["steps"].get(k, 0) + 1
+    return fails, stats
 
 
 # ------------------------------------------------------------------ comment-opener neighbourhood x many hash seeds
@@ -201,12 +432,24 @@ def gen_order_case(rnd):
     dirs = rnd.sample(DIRS, rnd.choice([3, 3, 4]))
     files = {}        # rel path -> bytes
 
+    pool = [fn for fn, lang in sel.name_pools()["lang"] if lang in LANG_OF_EXT.values()]
+
     def fill(pre, n):
         for _ in range(n):
             ext = rnd.choice(FILE_EXT)
             name = rnd.choice(FILE_STEMS) + ext
+            r = rnd.random()
+            if r < 0.25:
+                # language by a Pygments extension / WHOLE-name pattern outside the classic pool (x.mjs, x.pyi, x.h, BUILD, SConscript)
+                name = sel.pool_stem(rnd, rnd.choice(pool))
+                name = rnd.choice(FILE_STEMS) + name[name.index("."):] if "." in name and name.split(".")[0] in sel.STEMS else name
             lengths = [rnd.choice([5, 31, 40, 61, 75]) for _ in range(rnd.choice([1, 1, 2]))]
-            files["/".join(pre + [name])] = sel.source_for(ext, lengths)
+            files["/".join(pre + [name])] = sel.source_for(ext if r >= 0.25 else name, lengths)
+            if r < 0.25 or rnd.random() < 0.1:
+                # a name with the same suffix that is NO source file, next to it
+                sib = sel.name_pools()["siblings"].get(name) or (["AUTHORS", "LICENSE", "Makefile", "NOTICE"] if "." not in name else [])
+                if sib:
+                    files["/".join(pre + [rnd.choice(sib)])] = b"def not_code(a):\n" + b"".join(b"    a = a + %d\n" % i for i in range(70))
     for d in dirs:
         fill([d], rnd.choice([1, 2, 3]))
         for s in rnd.sample(SUBS, rnd.choice([0, 1, 1, 2])):
@@ -219,9 +462,9 @@ def gen_order_case(rnd):
         for _ in range(k):
             r = rnd.random()
             if r < 0.35:
-                out.append(rnd.choice(stems))
+                out.append(rnd.choice(stems or ["*.py"]))
             elif r < 0.6:
-                out.append(rnd.choice([n for n in names if "." in n]))
+                out.append(rnd.choice([n for n in names if "." in n] or ["main.py"]))
             elif r < 0.8:
                 out.append(rnd.choice(SUBS) + "/")
             elif r < 0.9:
@@ -237,7 +480,7 @@ def gen_order_case(rnd):
             c = p.split("/")
             if len(c) == 3 and c[0] == d and rnd.random() < 0.2:
                 ignores[d + "/" + c[1]] = lines(1)
-    root_ignore = [rnd.choice([n for n in names if "." in n])] if rnd.random() < 0.3 else []
+    root_ignore = [rnd.choice([n for n in names if "." in n] or ["main.py"])] if rnd.random() < 0.3 else []
     # argument lists: every order of the directories (all 6 for three, a sample for four), every directory alone,
     # the root, and lists mixing a file argument with directories that do not contain it
     import itertools
@@ -267,8 +510,8 @@ def order_expected(case, model_ms):
             for p in sorted(case["files"]):
                 comps = p.split("/")
                 under = (a == "." or p == a or p.startswith(a + "/"))
-                if not under or sel.spec_excluded(comps, case["root_gitignore"]):
-                    continue
+                if not under or sel.spec_excluded(comps, case["root_gitignore"]) or model_ms.get(p) is None:
+                    continue            # outside the argument, excluded at the root, or no source file of a supported language
                 read.append(p)
                 risks = sorted([m for m in model_ms[p] if m[5] > 30], key=lambda m: -m[5])
                 listed[p] = [[p, m[1], m[2], m[5], m[0]] for m in risks]
@@ -303,8 +546,8 @@ def materialize_order_case(case):
 
 def judge_order_case(case, hashseed, only_run=None):
     """-> (failures, number of calls judged)"""
-    paths = sorted(case["files"])
-    reqs = [sr.scan_request(LANG_OF_EXT[os.path.splitext(p)[1]], case["files"][p].encode("latin-1").decode("utf-8")) for p in paths]
+    paths = sorted(p for p in case["files"] if sel.expected_language(os.path.basename(p)) is not None)
+    reqs = [sr.scan_request(sel.expected_language(os.path.basename(p)), case["files"][p].encode("latin-1").decode("utf-8")) for p in paths]
     model_ms = {p: (sr.decode_scan(m) or ([], 0))[0] for p, m in zip(paths, sr.model_scan_many(reqs, shards=1))}
     c = case if only_run is None else dict(case, runs=[only_run])
     exp = order_expected(c, model_ms)
@@ -351,7 +594,9 @@ def check_orders(ctx):
     fails = [f for fs_, _ in res for f in fs_]
     fails.sort(key=lambda f: len(json.dumps(f["input"])))
     stats = {"trees": len(cases), "interpreters": len(jobs), "check_calls": sum(n for _, n in res),
-             "nested_gitignores": sum(len(c["gitignores"]) for c in cases), "root_gitignores": sum(1 for c in cases if c["root_gitignore"])}
+             "nested_gitignores": sum(len(c["gitignores"]) for c in cases), "root_gitignores": sum(1 for c in cases if c["root_gitignore"]),
+             "files_named_from_pygments_pool": sum(1 for c in cases for p in c["files"] if sel.expected_language(os.path.basename(p)) and os.path.splitext(p)[1] not in LANG_OF_EXT),
+             "same_suffix_non_source_files": sum(1 for c in cases for p in c["files"] if sel.expected_language(os.path.basename(p)) is None)}
     return fails, stats
 
 
@@ -406,18 +651,21 @@ def correspond(ctx):
                 nontrivial.add((i, s))
     t = scan_tree_twice(ctx, fs)
     if t:
-        fails.append({"input": {"stream": "tree"}, "observed": t, "required": "reports equal up to uuid, timestamp and file order"})
+        fails.append(t)
     # the smallest failing files first (the marker files are 7-9 lines)
     fails.sort(key=lambda f: len(json.dumps(f["input"], default=str)))
     ofails, ostats = check_orders(ctx)
     fails = ofails[:10] + fails
     evals += ostats["check_calls"]
+    hfails, hstats = cache_histories(ctx, fs[:n_main])
+    fails = hfails[:3] + fails
+    evals += hstats["scans"]
     return {
         "evaluations": evals + 2, "distinct_nontrivial": len(nontrivial),
-        "rule": "%d files (canonical, malformed incl. ones that abort matching midway, corpus) analysed in %d fresh interpreters: PYTHONHASHSEED in %s x file orders (identity, reversed, random permutations); every per-file result compared with the model's single result; plus two subprocess scans of one tree under different hash seeds; non-trivial = distinct (file, hash seed) pairs with at least one function; PLUS %d marker files (per language: comment opener + at most one further punctuation character + `nocl`, on a header line) in %d further interpreters (hash seeds 0..%d and %d drawn from 0..2^32-1) against the model; PLUS check-orders: %d trees with nested .gitignore files, the real check_command called in %d fresh interpreters with the top-level directories as arguments in every order (pairs, single directories, the root, file + directory lists, the first list again at the end of the same process): %d calls, each judged against the model's analysis of every file alone" % (n_main, len(jobs), seeds if len(seeds) < 8 else "0..29,12345,999983", len(mk), len(mjobs), ctx.pick(16, 64) - 1, ctx.pick(4, 16), ostats["trees"], ostats["interpreters"], ostats["check_calls"]),
+        "rule": "%d files (canonical, malformed incl. ones that abort matching midway, corpus) analysed in %d fresh interpreters: PYTHONHASHSEED in %s x file orders (identity, reversed, random permutations); every per-file result compared with the model's single result; plus two subprocess scans of one tree under different hash seeds; non-trivial = distinct (file, hash seed) pairs with at least one function; PLUS %d marker files (per language: comment opener + at most one further punctuation character + `nocl`, on a header line) in %d further interpreters (hash seeds 0..%d and %d drawn from 0..2^32-1) against the model; PLUS check-orders: %d trees with nested .gitignore files, the real check_command called in %d fresh interpreters with the top-level directories as arguments in every order (pairs, single directories, the root, file + directory lists, the first list again at the end of the same process): %d calls, each judged against the model's analysis of every file alone" % (n_main, len(jobs), seeds if len(seeds) < 8 else "0..29,12345,999983", len(mk), len(mjobs), ctx.pick(16, 64) - 1, ctx.pick(4, 16), ostats["trees"], ostats["interpreters"], ostats["check_calls"]) + "; the tree of the two-scans stream names half of its generated files by ANY extension / whole file name Pygments maps to the language (x.h, x.idc, x.hh, x.hpp, x.cc, x.mjs, x.pyi, BUILD.bazel, ...) and holds byte-identical headers under every contested name (x.h, x.hh, x.cp, x.H, x.hpp) above, beside and below C and C++ sources; PLUS cache-history: %d histories `codelimit scan` -> files rewritten with a kept / back-dated modification time (2 h, 400 days), touched, renamed with the same bytes to the sibling language -> scan with the cache in place -> again -> scan without cache: every entry = checksum of the bytes + the model's analysis of the file as it is now, all three later reports equal up to uuid/timestamp/order (%d scans)" % (hstats["histories"], hstats["scans"]),
         "samples": [{"hashseed": s, "order": o[:8], "first_result": (res or [""])[0][:60]} for (s, o, res, e) in results[:3]],
         "exhaustive": False, "distribution": {"files": n_main, "interpreters": len(jobs), "hash_seeds": len(seeds), "orders": len(orders),
-                                              "marker_files": len(mk), "marker_hash_seeds": len(mseeds), "check_orders": ostats},
+                                              "marker_files": len(mk), "marker_hash_seeds": len(mseeds), "check_orders": ostats, "cache_history": hstats},
         "disagreements": dis[:30], "oracle_failures": fails[:30],
     }
 
@@ -436,6 +684,17 @@ def replay(payload):
         for f in fails:
             print("observed: %s\nviolated: %s" % (f["observed"], f["required"]))
         return not fails
+    if inp.get("stream") == "cache-history":
+        bad = run_cache_history(inp)
+        print("codelimit scan, then %s, then codelimit scan again (cache in place)" % [st[:2] + st[3:] if st[0] == "write" else st for st in inp["steps"]])
+        print("violated: %s" % (bad or "nothing"))
+        return not bad
+    if inp.get("stream") == "tree" and inp.get("files"):
+        placed = {r: (v[0], v[1].encode("latin-1")) for r, v in inp["files"].items()}
+        f = run_tree(placed, {r: b.encode("latin-1") for r, b in (inp.get("other_files") or {}).items()}, inp.get("gitignore"), [tuple(r) for r in inp["runs"]])
+        print("codelimit scan on a tree of %d files %s, runs (PYTHONHASHSEED, walk-order seed; 0 = file system order): %s" % (len(placed), sorted(placed)[:12], inp["runs"]))
+        print("violated: %s" % (f["what"] if f else "nothing"))
+        return f is None
     if inp.get("stream") == "tree" or "language" not in inp:
         print("tree/worker level failure: re-run the check"); return False
     cases = [tuple(x) for x in inp.get("predecessors", [])] + [(inp["language"], inp["code"])]
